@@ -170,6 +170,10 @@ def w_landmarks(ctx, rng, i):
             obj = gen.shape(rng, cls, d=d)
             if rng.random() < 0.4:
                 obj.points[rng.integers(0, obj.n_points), rng.integers(0, d)] = np.nan
+            if rng.random() < 0.5:
+                # exact zeros, negative zero and whole numbers (corners at the origin, grid points)
+                obj.points[rng.integers(0, obj.n_points), rng.integers(0, d)] = 0.0
+                obj.points[rng.integers(0, obj.n_points), rng.integers(0, d)] = -0.0 if rng.random() < 0.5 else float(rng.integers(-3, 4))
             if cls == "LabelledPointUndirectedGraph" and rng.random() < 0.5:
                 masks = OrderedDict((k2, obj._labels_to_masks[k]) for k, k2 in zip(obj._labels_to_masks, ["zeta", "ålpha ü", "mid", "點", "0", "b b"]))
                 obj = ms.LabelledPointUndirectedGraph(obj.points, obj.adjacency_matrix, masks)
@@ -181,6 +185,8 @@ def w_landmarks(ctx, rng, i):
                 s = gen.shape(rng, cls, d=d)
                 if rng.random() < 0.3:
                     s.points[rng.integers(0, s.n_points), rng.integers(0, d)] = np.nan
+                if rng.random() < 0.4:
+                    s.points[rng.integers(0, s.n_points), rng.integers(0, d)] = 0.0
                 lm[["zz", "aa", "Ünï", "g 1", "0"][g] if rng.random() < 0.7 else "k%d" % g] = s
             if rng.random() < 0.3:
                 lm["empty_edges"] = ms.PointUndirectedGraph.init_from_edges(gen.points(rng, 3, d), None)
@@ -204,7 +210,7 @@ def w_landmarks(ctx, rng, i):
                         compare_ljson(ctx, o, back[k], type(o).__name__, "single" if single else "manager")
         # pts (2D)
         if d == 2:
-            pc = ms.PointCloud(gen.points(rng, int(rng.integers(1, 20)), 2, scale=200.0))
+            pc = ms.PointCloud(gen.points(rng, int(rng.integers(1, 20)), 2, scale=[2.0, 200.0, 3000.0, 60000.0][rng.integers(0, 4)]))
             parg, pab, psp = sb.spell(rng, NAMES[rng.integers(0, len(NAMES))] + ".pts")
             if watched_export(ctx, mio.export_landmark_file, pc, parg, pab, False, ("pts", psp)):
                 b = mio.import_landmark_file(pab)
